@@ -160,6 +160,18 @@ impl Got {
     }
 }
 
+/// Every value the property allows a waiter to return when it looks at this state (the property does
+/// not say which wins when a cancel and credit / a resume are both there; the model does, see the diff).
+fn acceptable(kind: &Kind, window: u64, sent: u64, acked: u64, cancelled: &Option<String>, pending: Option<u64>) -> Vec<Got> {
+    let mut v = Vec::new();
+    if let Some(r) = cancelled { v.push(Got::Cancelled(r.clone())); }
+    match kind {
+        Kind::Credit(len) => { let inf = sent.saturating_sub(acked); if inf == 0 || inf.saturating_add(*len) <= window { v.push(Got::Ok); } }
+        Kind::Reconnect => { if let Some(o) = pending { v.push(Got::Resume(o)); } }
+    }
+    v
+}
+
 fn gettid() -> i64 { unsafe { libc::syscall(libc::SYS_gettid) as i64 } }
 
 /// Scheduler state letter of a thread of this process (`S` = sleeping), `?` if unreadable.
@@ -195,7 +207,7 @@ struct Exec {
     tmo_ok: Option<(bool, u128)>,
     cleanup_missed: bool,
     /// the waiter's condition in the real object right after the setup (before the waiter starts)
-    entry_want: Option<Got>,
+    entry_want: Vec<Got>,
 }
 
 /// Run one case against the real `TransferControl`.
@@ -205,11 +217,7 @@ fn execute(c: &Case, rng: &mut Rng, tmo_ms: u64) -> Exec {
     for op in &c.setup {
         match (op, apply(&tc, op)) { (Op::Adv(_), _) => setup_pending = None, (_, OpRes::ResumeOk(o)) => setup_pending = Some(o), _ => {} }
     }
-    let entry_want = match (tc.cancel_reason(), &c.kind) {
-        (Some(r), _) => Some(Got::Cancelled(r)),
-        (None, Kind::Credit(len)) => { let (s, a) = tc.offsets(); let inf = s.saturating_sub(a); if inf == 0 || inf.saturating_add(*len) <= c.window { Some(Got::Ok) } else { None } }
-        (None, Kind::Reconnect) => setup_pending.map(Got::Resume),
-    };
+    let entry_want = { let (s, a) = tc.offsets(); acceptable(&c.kind, c.window, s, a, &tc.cancel_reason(), setup_pending) };
     let tmo_ms = if c.imm { 0 } else { tmo_ms };
 
     // ---- waiter
@@ -266,12 +274,14 @@ fn execute(c: &Case, rng: &mut Rng, tmo_ms: u64) -> Exec {
     let mut handles = Vec::new();
     for (ti, ops) in c.threads.iter().enumerate() {
         let (tc, go, oplog, ops, seq) = (tc.clone(), go.clone(), oplog.clone(), ops.clone(), c.seq);
+        // tmo cases: spread the ops over the whole wait, so that wake-ups also land just before the deadline
+        let spread_us = if c.tmo && !c.imm { Some(tmo_ms * 1000 + 1) } else { None };
         let jit: Vec<u64> = ops.iter().map(|_| rng.next()).collect();
         handles.push(std::thread::spawn(move || {
             while !go.load(Ordering::Acquire) { std::hint::spin_loop(); }
             let mut res = Vec::new();
             for (op, j) in ops.iter().zip(jit) {
-                jitter(j);
+                match spread_us { Some(us) => std::thread::sleep(Duration::from_micros((j >> 8) % us)), None => jitter(j) }
                 if seq {
                     let mut log = oplog.lock().unwrap();
                     let r = catch(|| apply(&tc, op)).unwrap_or(OpRes::ResumeErr);
@@ -367,10 +377,19 @@ fn oracles(out: &mut Out, c: &Case, e: &Exec, line: &str) {
     if e.cleanup_missed {
         out.oracle_fail(&format!("{}.missed_wakeup.cancel", fam), "a parked waiter did not return within 10 s of cancel()", &ops);
     }
-    if c.imm && e.entry_want.is_some() {
-        if Some(&e.got) != e.entry_want.as_ref() {
+    if c.imm && !e.entry_want.is_empty() {
+        if !e.entry_want.contains(&e.got) {
             let sig = if e.got == Got::Timeout { "timeout.before_condition" } else { "value.at_entry" };
-            out.oracle_fail(&format!("{}.{}", fam, sig), &format!("condition true at entry (deadline already passed): expected {}, wait returned {}", e.entry_want.as_ref().unwrap().show(), e.got.show()), &ops);
+            out.oracle_fail(&format!("{}.{}", fam, sig), &format!("condition true at entry (deadline already passed): expected {}, wait returned {}",
+                e.entry_want.iter().map(|g| g.show()).collect::<Vec<_>>().join(" or "), e.got.show()), &ops);
+        }
+        return;
+    }
+    if c.imm {
+        // condition false at entry, deadline passed: Timeout is the answer; what else the wait may say about
+        // e.g. a resume staged before a file advance is left to the model comparison
+        if e.got == Got::Parked {
+            out.oracle_fail(&format!("{}.timeout.never", fam), "deadline already passed at entry, no return within 10 s", &ops);
         }
         return;
     }
@@ -410,12 +429,7 @@ fn oracles(out: &mut Out, c: &Case, e: &Exec, line: &str) {
         let mut pending: Option<u64> = None;
         for s in &e.snaps {
             match (&s.op, s.res) { (Op::Adv(_), _) => pending = None, (Op::Res(..), OpRes::ResumeOk(o)) => pending = Some(o), _ => {} }
-            let want = match (&s.cancelled, &c.kind) {
-                (Some(r), _) => Some(Got::Cancelled(r.clone())),
-                (None, Kind::Credit(len)) => { let inf = s.sent.saturating_sub(s.acked); if inf == 0 || inf.saturating_add(*len) <= c.window { Some(Got::Ok) } else { None } }
-                (None, Kind::Reconnect) => pending.map(Got::Resume),
-            };
-            if want.as_ref() == Some(&e.got) { justified = true; }
+            if acceptable(&c.kind, c.window, s.sent, s.acked, &s.cancelled, pending).contains(&e.got) { justified = true; }
         }
         if !justified {
             out.oracle_fail(&format!("{}.value.unjustified", fam), &format!("returned {} but no state after any op makes that the matching result", e.got.show()), &ops);
@@ -562,7 +576,13 @@ fn gen_imm(rng: &mut Rng) -> Case {
     let reconnect = rng.chance(2, 5);
     let mut setup = w.setup.clone();
     let covered: Vec<u64> = w.chunks.iter().map(|c| c.0).chain([w.sent]).collect();
-    if reconnect {
+    if rng.chance(1, 4) {
+        // condition false at entry: window still full / a resume staged and then dropped by a file advance
+        if reconnect && rng.chance(2, 3) {
+            setup.push(Op::Res(w.file, *rng.pick(&covered)));
+            setup.push(Op::Adv(other_file(rng, w.file)));
+        }
+    } else if reconnect {
         if rng.chance(2, 3) { setup.push(Op::Res(w.file, *rng.pick(&covered))); }
         if rng.chance(1, 3) || setup.len() == w.setup.len() { setup.push(Op::Cancel(rng.range(1, 9))); }
     } else {
@@ -581,7 +601,7 @@ fn gen_imm(rng: &mut Rng) -> Case {
 fn run_case(out: &mut Out, c: &Case, idx: u64, rng: &mut Rng) {
     let head = c.head(idx);
     out.begin(&head);
-    let tmo_ms = 4 + rng.below(28);
+    let tmo_ms = 1 + rng.below(31);
     let e = execute(c, rng, tmo_ms);
     let order = match &e.order { Some(o) if !o.is_empty() => o.iter().map(|t| t.to_string()).collect::<Vec<_>>().join("."), Some(_) => "-".into(), None => "-".into() };
     let fin = format!("{}:{}:{}", e.fin.0, e.fin.1, if e.fin.2 { 1 } else { 0 });
@@ -606,7 +626,7 @@ fn main() {
     let mut out = Out::new(&args.out);
     out.flush_each = true;
     let mut rng = Rng::new(args.seed);
-    out.rule = "one real thread in wait_for_credit/wait_for_reconnect (deadline 1 h) on a TransferControl whose window is full; the harness waits until /proc shows the waiter asleep (70%) or races its entry (30%); then 1-3 ops (ack: exact/insufficient/capped/stale/foreign, cancel, advance, resume: covered/uncovered/foreign, sent) from 1-3 threads with random yields/spins, signallers serialised by a harness lock (linearisation recorded) or free; values scaled by 1..2^40. Oracles: condition true in the real final state => waiter returns within 10 s; never Timeout; returned value matches a state that occurred. `tmo` cases: 4-31 ms deadline, 0-3 ops that cannot satisfy the condition, must return Timeout, not before the deadline. `imm` cases: deadline already passed at entry and condition already true: the matching value must be returned, not Timeout. Non-trivial = the final state obliges the waiter to return, or a tmo case; distinct by op line (incl. observed order/outcome)".into();
+    out.rule = "one real thread in wait_for_credit/wait_for_reconnect (deadline 1 h) on a TransferControl whose window is full; the harness waits until /proc shows the waiter asleep (70%) or races its entry (30%); then 1-3 ops (ack: exact/insufficient/capped/stale/foreign, cancel, advance, resume: covered/uncovered/foreign, sent) from 1-3 threads with random yields/spins, signallers serialised by a harness lock (linearisation recorded) or free; values scaled by 1..2^40. Oracles: condition true in the real final state => waiter returns within 10 s; never Timeout; returned value matches a state that occurred. `tmo` cases: 1-31 ms deadline, 0-3 ops that cannot satisfy the condition (many of them notify), spread over the wait, must return Timeout, not before the deadline. `imm` cases: deadline already passed at entry and condition already true: the matching value must be returned, not Timeout. Non-trivial = the final state obliges the waiter to return, or a tmo case; distinct by op line (incl. observed order/outcome)".into();
     let mut idx = 0u64;
     if let Some(lines) = args.replay_ops() {
         for l in lines {
